@@ -282,6 +282,11 @@ func TestC01Random(t *testing.T) {
 		k := rapid.SampledFrom(lang.AllKinds).Draw(rt, "kind")
 		depth := rapid.IntRange(1, maxDepth).Draw(rt, "depth")
 		expr := env.Expr(rt, k, depth)
+		if gen.Uniform(rt, "consttree", 6) == 0 {
+			// integer-literal-only arithmetic in every nesting shape
+			expr = gen.ConstTree(rt, rapid.IntRange(1, 4).Draw(rt, "constdepth"))
+			col.Class("constant-tree")
+		}
 		c.Script = prelude + "return " + lang.ExprText(expr) + ";"
 
 		m := lang.NewMachine()
